@@ -9,6 +9,14 @@
 (*   proof          c(32) | s(32), canonical scalars                 bincode *)
 (* Every decoder returns [ok |-> FALSE] or [ok |-> TRUE, canon |-> bytes],  *)
 (* canon being the re-encoding of what was accepted.                        *)
+(* The parsers are the CONTRACT of C08 / C15, not a transcript of the code: *)
+(* they accept everything a conforming decoder may accept (trailing bytes   *)
+(* that the layout allows to ignore, repeated map keys) and say what the    *)
+(* canonical form then is.  A real decoder is judged by                     *)
+(*   accepts  =>  the parser accepts and the re-encoding is the canon,      *)
+(*   an honest encoding (canon = input, produced by the encoder) is         *)
+(*   accepted and round-trips;                                              *)
+(* refusing a non-honest input is always allowed.                           *)
 (* TLC integers are 32-bit: a length header with the top bit set is Huge    *)
 (* (larger than any input).                                                 *)
 (***************************************************************************)
@@ -52,11 +60,11 @@ DecAdss(b) ==
                IN IF ~c.ok THEN Rej
                   ELSE LET d == LoadBytes(c.rest)
                        IN IF ~d.ok THEN Rej
-                          ELSE IF Len(d.rest) # 64 THEN Rej
+                          ELSE IF Len(d.rest) < 64 THEN Rej            \* (bytes after the tag: ignorable)
                           ELSE LET sh == DecSharks(s.data)
                                IN IF ~sh.ok THEN Rej
                                   ELSE Acc(thr \o StoreBytes(sh.canon) \o StoreBytes(c.data)
-                                           \o StoreBytes(d.data) \o d.rest)
+                                           \o StoreBytes(d.data) \o Take(d.rest, 64))
 
 \* sta_rs::Message::from_bytes
 DecMessage(b) ==
